@@ -7,6 +7,7 @@ use crate::engine::{run_replay_file, strict_replay, Expect, Opts, Report, Sub};
 
 pub mod c01;
 pub mod c02;
+pub mod c04;
 pub mod common;
 
 #[derive(Deserialize, Clone, Debug)]
@@ -95,6 +96,7 @@ pub fn run(id: &str, opts: &Opts) -> Option<Report> {
         "C01" => c01::run(opts),
         "C02" => c02::run_c02(opts),
         "C03" => c02::run_c03(opts),
+        "C04" => c04::run(opts),
         _ => return None,
     })
 }
@@ -103,6 +105,7 @@ pub fn replay(id: &str, path: &Path) -> Option<i32> {
     match id {
         "C01" => c01::replay(path),
         "C02" | "C03" => c02::replay(id, path),
+        "C04" => c04::replay(path),
         _ => None,
     }
 }
